@@ -20,7 +20,7 @@ import copy
 
 from .model import Program
 
-VARIANTS = ("comps->loops", "loops->comps", "else-intro", "else-elim", "positive-if", "counter-loops",
+VARIANTS = ("comps->loops", "loops->comps", "else-intro", "else-elim", "positive-if", "counter-loops", "zip-loops",
             "comps->loops+else-elim", "loops->comps+else-elim", "comps->loops+else-intro", "loops->comps+else-intro")
 _CACHE: dict = {}
 CHANGED: dict = {}   # cache key -> modules whose source the normal form changes
@@ -99,6 +99,8 @@ class _FnRewriter:
             return self._positive_if(stmts)
         if k == "counter-loops":
             return self._counter_loops(stmts)
+        if k == "zip-loops":
+            return self._zip_loops(stmts)
         return stmts
 
     @staticmethod
@@ -164,6 +166,33 @@ class _FnRewriter:
                         out.append(_Sub(item.id).visit(copy.deepcopy(b_)))
                 self.changed = True
                 continue
+            out.append(st)
+        return out
+
+    def _zip_loops(self, stmts):
+        """for a, b, c in zip(A, B, C): S   ->   for _i, a in enumerate(A): b = B[_i] ; c = C[_i] ; S
+        (B, C plain names that S does not rebind; the parallel walk written with positions - the form the rules were written for.
+        The two differ only when B or C is shorter than A, where zip stops early and the indexed form raises)"""
+        out = []
+        for st in stmts:
+            if isinstance(st, ast.For) and not st.orelse and isinstance(st.iter, ast.Call) and isinstance(st.iter.func, ast.Name) \
+                    and st.iter.func.id == "zip" and 2 <= len(st.iter.args) <= 4 and not st.iter.keywords \
+                    and isinstance(st.target, ast.Tuple) and len(st.target.elts) == len(st.iter.args) \
+                    and all(isinstance(t, ast.Name) for t in st.target.elts) \
+                    and all(isinstance(a_, ast.Name) for a_ in st.iter.args[1:]) \
+                    and not isinstance(st.iter.args[0], ast.Starred):
+                others = {a_.id for a_ in st.iter.args[1:]}
+                rebound = {n.id for b_ in st.body for n in ast.walk(b_) if isinstance(n, ast.Name) and isinstance(n.ctx, (ast.Store, ast.Del))}
+                idx = "_zip_pos"
+                if not (others & rebound) and idx not in self.fn_names_count:
+                    pre = [ast.Assign(targets=[ast.Name(t.id, ast.Store())],
+                                      value=ast.Subscript(value=ast.Name(a_.id, ast.Load()), slice=ast.Name(idx, ast.Load()), ctx=ast.Load()))
+                           for t, a_ in zip(st.target.elts[1:], st.iter.args[1:])]
+                    loop = ast.For(target=ast.Tuple(elts=[ast.Name(idx, ast.Store()), st.target.elts[0]], ctx=ast.Store()),
+                                   iter=ast.Call(func=ast.Name("enumerate", ast.Load()), args=[st.iter.args[0]], keywords=[]),
+                                   body=[ast.copy_location(x, st) for x in pre] + st.body, orelse=[])
+                    st = ast.copy_location(loop, st)
+                    self.changed = True
             out.append(st)
         return out
 
